@@ -164,6 +164,10 @@ where
         }
 
         let scale = AsPrimitive::<F>::as_(remaining_free_weight.as_()) / normalization;
+        if !scale.is_finite() {
+            // (a tiny but normal normalization makes the scale overflow to infinity)
+            return Err(());
+        }
 
         Ok(Self {
             pmf: probabilities,
